@@ -15,6 +15,7 @@ import (
 	"github.com/bio-routing/bio-rd/routingtable/locRIB"
 	"github.com/bio-routing/bio-rd/routingtable/vrf"
 
+	"verifharness/internal/batch"
 	"verifharness/internal/tbl"
 	"verifharness/internal/vf"
 )
@@ -300,8 +301,13 @@ func run(h hist, st *stats, viol func(string, map[string]string, string)) int {
 }
 
 func main() {
+	if batch.IsChild() { // session half: cases run in child processes (session.go)
+		batch.ChildMain(runSessCase)
+		return
+	}
 	vf.Main("C06", "exploration", func(r *vf.Run) {
-		r.Rule("PRNG histories of 40-60 operations on one Adj-RIB-In (iBGP/eBGP, add-path receive on/off, all 25 role pairs + roles off + peer without role, cycled) feeding a Loc-RIB and recording observers: announcements (about a third ineligible: AS loop via sequence or set incl. a second local ASN, own ORIGINATOR_ID, local cluster id inside CLUSTER_LIST, OTC present, empty eBGP AS_PATH), withdrawals, import policy replacement (accept-all / reject-all / reject-some / set LOCAL_PREF / prepend+MED), Loc-RIB unregister/register, late observer registration, other sessions of the VRF adding/withdrawing their local ASN / cluster id (reference counted); every hand-out and every Loc-RIB path is judged by the reference predicate. distinct_nontrivial = histories with an ineligible announcement, a policy replacement and a late registration")
+		r.Rule("table half: PRNG histories of 40-60 operations on one Adj-RIB-In (iBGP/eBGP, add-path receive on/off, all 25 role pairs + roles off + peer without role, cycled) feeding a Loc-RIB and recording observers: announcements (about a third ineligible: AS loop via sequence or set incl. a second local ASN, own ORIGINATOR_ID, local cluster id inside CLUSTER_LIST, OTC present, empty eBGP AS_PATH), withdrawals, import policy replacement (accept-all / reject-all / reject-some / set LOCAL_PREF / prepend+MED), Loc-RIB unregister/register, late observer registration, other sessions of the VRF adding/withdrawing their local ASN / cluster id (reference counted); every hand-out and every Loc-RIB path is judged by the reference predicate. distinct_nontrivial = histories with an ineligible announcement, a policy replacement and a late registration" + sessionRule)
+		sessionAssumptions(r)
 		r.Assume("router id != 0", "the predicate judges the path as announced (before import policy), against the ASNs and cluster ids that were local at that moment")
 		mk := func(h hist) func(string, map[string]string, string) {
 			return func(clause string, f map[string]string, detail string) {
@@ -309,6 +315,10 @@ func main() {
 			}
 		}
 		if raw, ok := r.Replaying(); ok {
+			if isSessionCase(raw) {
+				runSessions(r, raw)
+				return
+			}
 			var h hist
 			vf.Decode(raw, &h)
 			run(h, &stats{byReason: map[string]int{}}, mk(h))
@@ -355,5 +365,6 @@ func main() {
 		r.Set("events", agg)
 		r.Count("histories", n)
 		r.Require("handouts", 1000)
+		runSessions(r, nil)
 	})
 }
